@@ -15,7 +15,7 @@ RULE = (
     "Object of every transformable kind (zoo: point, point at infinity, line, plane, collections, generic/dual quadric, circle, "
     "ellipse, sphere, cone, cylinder, segment, polygon (2D and planar in 3D, convex and non-convex), triangle, rectangle, "
     "tetrahedron, cuboid, polytope collections, transformation(s)) from 24 integers |c|<=6; two or three invertible integer "
-    "matrices with entries in [-3,3] (exact det != 0), exponent k in [-3,4], histories of 1-6 applications. "
+    "matrices with entries in [-3,3] (exact det != 0), exponent k in [-8,8] (half of them in [-3,4]; the library evaluates t**k as one einsum over k operands, larger k is infeasible), histories of 1-6 applications. "
     "Non-trivial = at least one matrix is not affine and not symmetric; distinct by case hash."
 )
 ASSUMPTIONS = [
@@ -32,7 +32,7 @@ def kinds(d):
 def case(draw, tier="quick"):
     d = draw(st.sampled_from([2, 3]))
     kind = draw(st.sampled_from(kinds(d)))
-    return {"d": d, "kind": kind, "v": draw(Z.params()), "m": draw(Z.params(9)), "k": draw(st.integers(-3, 4)),
+    return {"d": d, "kind": kind, "v": draw(Z.params()), "m": draw(Z.params(9)), "k": draw(st.one_of(st.integers(-3, 4), st.integers(-8, 8))),
             "hist": draw(st.lists(st.integers(0, 2), min_size=1, max_size=6)), "mclass": [draw(st.sampled_from(Z.MCLASSES)) for _ in range(3)]}
 
 
